@@ -333,7 +333,7 @@ func entries(nStates, nBiomes int) []entry {
 }
 
 // hostile VarInt values written over a position
-var hostile = []int32{-1, -2147483648, -128, 0, 1, 1 << 14, 1 << 16}
+var hostile = []int32{-1, -2147483648, -128, 0, 1, 1 << 14, 1 << 16, 1 << 24, 0x7fffffff}
 
 // bigVarint reports whether some offset of b starts a VarInt that decodes to a positive value above 2^24
 // (allocation guard: decoders may allocate a declared length before validating it; negative values are fine).
@@ -350,9 +350,8 @@ func bigVarint(b []byte) bool {
 }
 
 func exec(c *vm.Ctx, e *entry, in []byte, origin string) (err error, panicked bool) {
-	if origin != "valid" && !strings.HasPrefix(origin, "sizes:") && bigVarint(in) {
-		c.Cover("skipped.declares-more-than-2^24")
-		return errors.New("skipped"), false
+	if origin != "valid" && bigVarint(in) {
+		c.Cover("input-declares-more-than-2^24") // no longer skipped: decoders grow their buffers as data arrives
 	}
 	c.Inflight(e.name + " " + origin + " " + vm.Hex(in))
 	panicked = c.Guard("decode", func() any {
@@ -433,8 +432,6 @@ func fuzzEntry(c *vm.Ctx, r *vm.Rand, e *entry) {
 			in := append(append([]byte{}, fill...), valid[w:]...)
 			exec(c, e, in, "fixed-width-prefix")
 		}
-		c.Cover("decoder." + e.name)
-		return
 	}
 	// hostile VarInt written at every offset (first 96 bytes exhaustively, sampled beyond)
 	var offs []int
@@ -446,9 +443,6 @@ func fuzzEntry(c *vm.Ctx, r *vm.Rand, e *entry) {
 	}
 	for _, off := range offs {
 		for _, h := range hostile {
-			if h == 1 && carriesNBT(e.name) {
-				continue
-			}
 			enc := refwire.EncVarInt(h)
 			in := append(append([]byte{}, valid[:off]...), enc...)
 			if off+1 < len(valid) {
@@ -458,17 +452,10 @@ func fuzzEntry(c *vm.Ctx, r *vm.Rand, e *entry) {
 		}
 	}
 	c.Cover("mut.hostile-varint-at-every-offset")
-	if carriesNBT(e.name) {
-		c.Cover("decoder." + e.name)
-		return
-	}
-	// bit flips (low two bits only: higher bits of a big-endian NBT length would declare gigabytes)
+	// bit flips, any bit
 	for k := 0; k < 64 && len(valid) > 0; k++ {
 		in := append([]byte{}, valid...)
-		in[r.Intn(len(in))] ^= 1 << uint(r.Intn(2))
-		if bigVarint(in) {
-			continue
-		}
+		in[r.Intn(len(in))] ^= 1 << uint(r.Intn(8))
 		exec(c, e, in, "bitflip")
 	}
 	c.Cover("mut.bitflip")
@@ -479,9 +466,6 @@ func fuzzEntry(c *vm.Ctx, r *vm.Rand, e *entry) {
 			if r.Intn(3) != 0 {
 				in[i] &= 0x7f
 			}
-		}
-		if bigVarint(in) {
-			continue
 		}
 		exec(c, e, in, "random")
 	}
@@ -935,6 +919,10 @@ func hostileClient(c *vm.Ctx, r *vm.Rand) {
 var _ = errors.New
 
 func run(c *vm.Ctx) {
+	if c.Mode == "capped" {
+		runCapped(c)
+		return
+	}
 	c.EnableSpinWatch("spin", 20)
 	nStates := len(block.StateList)
 	es := entries(nStates, 63)
@@ -973,5 +961,8 @@ func run(c *vm.Ctx) {
 	mr := c.Rand("managed")
 	for i := 0; i < c.Scale(3000, 80000); i++ {
 		managedBot(c, mr)
+	}
+	for i := 0; i < c.Scale(300, 6000); i++ {
+		hostileEncryption(c, mr)
 	}
 }
